@@ -16,10 +16,10 @@ TECHNIQUE = 'symbolic execution of the public Python routines on write-guarded c
 BUDGET = {'quick': 360, 'thorough': 2400}
 SOURCES = ['src/dtaidistance/util.py', 'src/dtaidistance/util_numpy.py', 'src/dtaidistance/dtw.py', 'src/dtaidistance/ed.py', 'src/dtaidistance/dtw_barycenter.py',
            'src/dtaidistance/dtw_ndim.py', 'src/DTAIDistanceC/DTAIDistanceC/dd_dtw.c', 'src/DTAIDistanceC/DTAIDistanceC/dd_ed.c']
-FUNCTIONS = ['dtw.distance / warping_paths / warping_path / lb_keogh / ub_euclidean / distance_matrix', 'ed.distance', 'dtw_ndim.distance', 'dtw_barycenter.dba / dba_loop',
+FUNCTIONS = ['SubsequenceSearch (one object asked several times: harness shared with C14)', 'dtw.distance / warping_paths / warping_path / lb_keogh / ub_euclidean / distance_matrix', 'ed.distance', 'dtw_ndim.distance', 'dtw_barycenter.dba / dba_loop',
              'util.SeriesContainer.wrap', 'util_numpy.verify_np_array', 'C: dtw_distance (4 option sets incl. pruning -> euclidean_distance), dtw_warping_paths + dtw_best_path, dtw_warping_path (inputs read-only, no mutable globals; the other C routines run with read-only inputs in C02, C04-C09, C11, C12, C18)']
 BOUNDS = {'quick': {'series length': '1..3', 'containers': 'list, tuple, object ndarray (C order, strided view, reversed-stride view), 2-D: C / F order / transposed view, SeriesContainer',
-                    'histories': 'repeated call, interleaved calls sharing series and settings dict'},
+                    'histories': 'repeated call, interleaved calls sharing series and settings dict; one SubsequenceSearch object asked twice (k sequences [1,None], [None,1], [n,1], [1,n], [n+1,1], 2 candidates of length 1..2)'},
           'thorough': {'series length': '1..4'}}
 OUTSIDE = ['layout independence of the C engine inside the Cython layer (typed memoryviews): only the pure-Python contiguity helper is checked, structurally, and the compiled '
            'extension is cross-checked on concrete inputs (sampling, labelled as such)', 'array.array inputs hold doubles only: compared concretely', 'NumPy hidden vs present is covered by C01']
@@ -46,6 +46,14 @@ def tasks(tier, seed):
             ts.append({'harness': 'py/guards+containers', 'fam': 'py', 'r': r, 'c': c, 'est': r * c * 30})
     ts.append({'harness': 'py/collections', 'fam': 'coll', 'est': 300})
     ts.append({'harness': 'twin/guards-fire', 'fam': 'twin', 'est': 10})
+    # history independence of a reused search object: sequences of queries on one SubsequenceSearch (harness of C14, multi-call sequences only)
+    for ql, lens in ((1, [1, 1]), (1, [2, 1])) + (((2, [2, 1]), (1, [1, 1, 1])) if tier == 'thorough' else ()):
+        n = len(lens)
+        for seq in ([1, None], [None, 1], [n, 1], [1, n], [n + 1, 1]):
+            for use_lb in (True, False):
+                for md in (False, True):
+                    ts.append({'harness': 'history/search-object', 'fam': 'hist14', 'ql': ql, 'lens': lens, 'seq': seq, 'use_lb': use_lb, 'md': md, 'opt': {},
+                               'est': 40 * sum(lens)})
     ts.append({'harness': 'py/dba_loop-copy', 'fam': 'dbacopy', 'est': 20})
     ts.append({'harness': 'c/readonly-inputs', 'fam': 'c', 'est': 200})
     ts.append({'harness': 'layout/verify_np_array', 'fam': 'layout', 'est': 30})
@@ -91,6 +99,16 @@ def run_task(cfg):
     fam = cfg['fam']
     if fam in ('dbacopy', 'layout'):
         return _in_subprocess(cfg)
+    if fam == 'hist14':
+        from checks import C14
+        res = C14.run_task(dict(cfg, harness='search'))
+        for c in res.get('cex', []):
+            c['delegate'] = 'C14'
+            c['harness'] = cfg['harness']
+            c['fam'] = fam
+        if res.get('sample'):
+            res['sample']['harness'] = cfg['harness']
+        return res
     dtw, dtw_ndim, innerdistance, ed, util, util_numpy, bary = dtwh.load('dtw', 'dtw_ndim', 'innerdistance', 'ed', 'util', 'util_numpy', 'dtw_barycenter')
     np = pysym._np()
     stats = smt.Stats()
@@ -377,6 +395,9 @@ def _concrete(cfg):
 
 def replay(cex):
     import numpy as np
+    if cex.get('delegate') == 'C14':
+        from checks import C14
+        return C14.replay(cex)
     fam = cex['fam']
     claim = cex['claim']
     if fam == 'layout':
